@@ -38,6 +38,7 @@ type (
 	SessionStore struct {
 		key   string
 		value string
+		seq   uint64
 	}
 )
 
@@ -57,11 +58,17 @@ func (sm *SessionManager) close() {
 }
 
 func (sm *SessionManager) doStore() {
+	lastSeq := make(map[string]uint64)
 	for {
 		select {
 		case <-sm.done:
 			return
 		case kv := <-sm.storeCh:
+			if kv.seq < lastSeq[kv.key] {
+				// overtaken by a newer snapshot of the same session key
+				continue
+			}
+			lastSeq[kv.key] = kv.seq
 			logger.SpanDebugf(nil, "session manager store session %v", kv.key)
 			err := sm.store.put(sessionStoreKey(kv.key), kv.value)
 			if err != nil {
